@@ -97,7 +97,11 @@ func (api *API) mapEncodeBasedOnType(
 			sliceValue := sliceFromArray(elemValue)
 			sliceValueType := sliceValue.Type()
 
-			ts, _ = api.typeSettingsRegistry.GetByType(valueType)
+			// the settings handed in are those of a struct field (its key is not the key inside the typed object): the
+			// registered ones are used - unless the array is the object of the call, whose settings come with the call
+			if opts.callObject == 0 || value.Pointer() != opts.callObject {
+				ts, _ = api.typeSettingsRegistry.GetByType(valueType)
+			}
 
 			return api.mapEncodeSlice(ctx, sliceValue, sliceValueType, ts, opts)
 		}
